@@ -286,10 +286,16 @@ func webFrames(r *vc.Rand) []byte {
 	return out
 }
 
+// forcedBody, when set, replaces the random frames of a gRPC-Web request
+var forcedBody []byte
+
 func webCase(m *monitor, r *vc.Rand) (vc.Val, vc.Val, bool) {
 	path := r.Pick([]string{"/c17.Svc/M1", "/c17.Svc/M3", "/c17.Svc/M4", "/c17.Svc/M5", "/c17.Svc/M6", "/c17.Svc/Nope", "/nope.Svc/M", "/", "/c17.Svc/", "/c17.Svc/M1/x", "/%zz/M1", "//M1"})
 	ct := r.Pick([]string{"application/grpc-web", "application/grpc-web+proto", "application/grpc-web-text", "application/grpc-web-text+proto", "application/grpc-web+json", "application/grpc-web+", "application/grpc-web;x"})
 	body := webFrames(r)
+	if forcedBody != nil {
+		body = append([]byte{}, forcedBody...)
+	}
 	if strings.Contains(ct, "text") {
 		if r.Chance(70) {
 			body = []byte(base64.StdEncoding.EncodeToString(body))
@@ -394,6 +400,9 @@ func rawFrame(fin bool, opcode byte, masked bool, claim int, payload []byte) []b
 	return b
 }
 
+// forced, when set, replaces the random messages of a gRPC-WebSocket session: a valid header message followed by these
+var forced [][]byte
+
 func wsCase(m *monitor, srv *httptest.Server, r *vc.Rand, grpcws bool) (vc.Val, vc.Val, bool) {
 	_, url, _ := target(r)
 	var proto []string
@@ -430,6 +439,14 @@ func wsCase(m *monitor, srv *httptest.Server, r *vc.Rand, grpcws bool) (vc.Val, 
 	}
 	raw := ws.UnderlyingConn()
 	nmsg := r.Intn(5)
+	if forced != nil {
+		ws.WriteMessage(websocket.BinaryMessage, []byte("content-type: application/grpc-web+proto\r\nx-grpc-web: 1\r\n"))
+		for _, f := range forced {
+			script = append(script, vc.L{0, f})
+			ws.WriteMessage(websocket.BinaryMessage, f)
+		}
+		nmsg = 0
+	}
 	for i := 0; i < nmsg; i++ {
 		var payload []byte
 		if grpcws {
@@ -533,6 +550,15 @@ func main() {
 			emit(httpCase(m, r.Fork()))
 		}
 	case "grpcweb":
+		for l := 0; l <= 16; l++ {
+			forcedBody = make([]byte, l)
+			emit(webCase(m, r.Fork()))
+			if l > 0 {
+				forcedBody[0] = 0x80
+			}
+			emit(webCase(m, r.Fork()))
+		}
+		forcedBody = nil
 		n := vc.Scale(800, 100000)
 		for i := 0; i < n; i++ {
 			emit(webCase(m, r.Fork()))
@@ -540,7 +566,22 @@ func main() {
 	case "ws", "grpcws":
 		srv := httptest.NewServer(m)
 		srv.Config.ErrorLog = nil
-		n := vc.Scale(120, 5000)
+		if part == "grpcws" {
+			// every short length of a data message after a valid header message, with each flow-control byte
+			for l := 0; l <= 12; l++ {
+				for _, fc := range []byte{0, 1, 2} {
+					f := make([]byte, l)
+					if l > 0 {
+						f[0] = fc
+					}
+					forced = [][]byte{f}
+					atomic.StoreInt32(&m.panics, 0)
+					emit(wsCase(m, srv, r.Fork(), true))
+				}
+			}
+			forced = nil
+		}
+		n := vc.Scale(120, 900)
 		for i := 0; i < n; i++ {
 			atomic.StoreInt32(&m.panics, 0)
 			emit(wsCase(m, srv, r.Fork(), part == "grpcws"))
